@@ -197,6 +197,6 @@ CFG = {
             "random float networks with bent links and speeds over 3 decades, end points perturbed on both sides of the 1e-9 identification threshold; "
             "6 query pairs per network, both options; gapnet: integer networks at ~1e9 whose junction vertices are 1-7 units off their node (inside the tolerance) with a direct "
             "link that is cheaper than the chain only for an unscaled heuristic, shuffled order/orientation, both options; heapq: 1-400 operation histories on the priority queue "
-            "alone with frequent score ties. distinct = distinct input line; non-trivial = class not skipped-*",
+            "alone with frequent score ties; star: hubs with 7-40 spokes and branches behind them / grid junctions of degree 7-24, queries hub -> every spoke end; chain: 17-80 links with per-link power-of-two speeds under both options; wrap: a 256-node chain added in order plus nodes whose ids agree modulo 256 with their neighbour's. distinct = distinct input line; non-trivial = class not skipped-*",
     "timeout": {"quick": 900, "thorough": 3000},
 }
